@@ -111,6 +111,31 @@ def data_for(job):
     return x, z, y
 
 
+def thread_data(y, t):
+    """the calls of one scenario have identical NON-DATA arguments; each thread fits its own data"""
+    y = np.asarray(y, dtype=float)
+    return y if t == 0 else y * (1 + 0.07 * t) + 0.3 * t + 0.05 * np.cos(np.arange(y.size) * (t + 1.0)).reshape(y.shape)
+
+
+def thread_refs(job, nthreads=3):
+    """serial outcome of each thread's call: on one object, one after another"""
+    from pybaselines import Baseline, Baseline2D
+    x, z, y = data_for(job)
+    kw = kwargs_for(job, y)
+    obj = make_obj(Baseline2D if job['two_d'] else Baseline, job, x, z)
+    try:
+        prepare(obj, job, y, kw)
+    except Exception:          # noqa: BLE001
+        return None
+    refs = []
+    for t in range(nthreads):
+        try:
+            refs.append(SC.canon(('ok', call(obj, job, thread_data(y, t), kw))))
+        except Exception as ex:      # noqa: BLE001
+            refs.append(('err', type(ex).__name__))
+    return refs
+
+
 def kwargs_for(job, y):
     kw = dict(job['kw'])
     if isinstance(kw.get('weights'), str):
@@ -172,17 +197,17 @@ def call(obj, job, y, kw):
             return getattr(obj, job['name'])(y, **kw)
 
 
-def run_plan(job, plan, nthreads, only=None, focus=None):
+def run_plan(job, plan, nthreads, only=None, focus=None, extra=()):
     x, z, y = data_for(job)
     kw = kwargs_for(job, y)
     s = SC.Sched(plan, only=only, focus=focus)
-    with SC.instrumented(s, job['two_d']) as cls:
+    with SC.instrumented(s, job['two_d'], extra) as cls:
         obj = make_obj(cls, job, x, z)
         try:
             prepare(obj, job, y, kw)
         except Exception as ex:          # noqa: BLE001
             return None, s, f'prepare raised {type(ex).__name__}: {ex}'
-        res = s.run([(lambda: call(obj, job, y, kw)) for _ in range(nthreads)])
+        res = s.run([(lambda t=t: call(obj, job, thread_data(y, t), kw)) for t in range(nthreads)])
     return res, s, None
 
 
@@ -237,11 +262,31 @@ def explore_job(args):
     if err:
         out['note'] = err
         return out
+    # fields the call WRITES on the shared object although no protocol model knows them become pre-emption points too
+    xfields = sorted({nm for (ow, nm, oid) in s.unmodelled})
+    if xfields:
+        out['extra_fields'] = xfields
+        s2 = SC.Sched([], record_only=True)
+        try:
+            x_, z_, y_ = data_for(job)
+            kw_ = kwargs_for(job, y_)
+            with SC.instrumented(s2, job['two_d'], xfields) as cls_:
+                o_ = make_obj(cls_, job, x_, z_)
+                prepare(o_, job, y_, kw_)
+                SC._cur.tid = 0
+                try:
+                    call(o_, job, y_, kw_)
+                finally:
+                    SC._cur.tid = None
+            k = len(s2.log)
+        except Exception:          # noqa: BLE001
+            pass
     out['points'] = k
     out['serial_ok'] = r1[0] == 'ok'
     if r1 != r2:
         out['note'] = 'serial: second call differs from the first'
-    accept = {r1, r2}
+    refs = thread_refs(job) or [r1, r1, r1]
+    accept = [{refs[0], r1, r2}, {refs[1]}, {refs[2]}]
     rng = np.random.default_rng(job['seed'])
     plans = []
     head = min(k, 30 if not thorough else 80)
@@ -264,7 +309,7 @@ def explore_job(args):
         plans.append((3, pl))
     for nt, plan in plans:
         try:
-            res, s, err = run_plan(job, plan, nt)
+            res, s, err = run_plan(job, plan, nt, extra=xfields)
         except SC.Deadlock as ex:
             out['fails'].append({'plan': plan, 'threads': nt, 'thread': -1, 'outcome': f'scheduler: {ex}'})
             continue
@@ -283,8 +328,8 @@ def explore_job(args):
             out['interleaved'] += 1
         for t, r in sorted(res.items()):
             c = SC.canon(r)
-            if c not in accept:
-                out['fails'].append({'plan': plan, 'threads': nt, 'thread': t,
+            if c not in accept[t]:
+                out['fails'].append({'plan': plan, 'threads': nt, 'thread': t, 'extra': xfields,
                                      'outcome': (f'{r[1]}: {r[2]}' if r[0] == 'err' else 'returned a different baseline / params than the serial call')})
                 break
         if len(out['fails']) >= 3:
@@ -374,6 +419,7 @@ def shared_array_writes(ctx, jobs, dis):
         focus = sorted({(h[0], h[1]) for h in hit[-2:]})
         # concrete schedule: pre-emption before every line of the writing function(s)
         r1, r2, k, _, _, err = serial(job)
+        refs_sa = thread_refs(job) or [r1, r1, r1]
         found = None
         if not err and r1 is not None:
             res, s0, err2 = run_plan(job, [0] * 100000, 2, focus=focus)
@@ -385,7 +431,7 @@ def shared_array_writes(ctx, jobs, dis):
                     continue
                 if e2:
                     break
-                bad = [t for t, r in sorted(res.items()) if SC.canon(r) not in {r1, r2}]
+                bad = [t for t, r in sorted(res.items()) if SC.canon(r) not in ({refs_sa[t], r1, r2} if t == 0 else {refs_sa[t]})]
                 if bad:
                     r = res[bad[0]]
                     found = (i, bad[0], (f'{r[1]}: {r[2]}' if r[0] == 'err' else 'returned a different baseline / params than the serial call'))
@@ -654,7 +700,7 @@ def correspond(ctx):
             dis.append(Disagreement('c04.schedule', f'{nm}:{job["scenario"]}:{"x" if job["with_x"] else "nox"}',
                                     f'{nm}({job["kw"]}) on a shared object created {"with" if job["with_x"] else "without"} x, cache {job["scenario"]}, '
                                     f'{fl["threads"]} threads, schedule {compact(fl["plan"])}: thread {fl["thread"]} -> {fl["outcome"]} (serial calls succeed)',
-                                    {'job': job, 'plan': fl['plan'], 'threads': fl['threads']}, True))
+                                    {'job': job, 'plan': fl['plan'], 'threads': fl['threads'], 'extra': fl.get('extra', [])}, True))
     ctx.traces += total_runs
     ctx.hist['schedules_run'] = total_runs
     # trace correspondence on a subset (all poly / spline jobs, others sampled)
@@ -687,11 +733,12 @@ def replay(ctx, data):
     r1, r2, k, _, _, err = serial(job)
     if err:
         return err
+    refs_rp = thread_refs(job) or [r1, r1, r1]
     for plan in rp.get('plans') or [rp['plan']]:
-        res, s, err = run_plan(job, plan, rp.get('threads', 2), focus=[tuple(f) for f in rp.get('focus', [])] or None)
+        res, s, err = run_plan(job, plan, rp.get('threads', 2), focus=[tuple(f) for f in rp.get('focus', [])] or None, extra=rp.get('extra', ()))
         if err:
             return err
         for t, r in sorted(res.items()):
-            if SC.canon(r) not in {r1, r2}:
+            if SC.canon(r) not in ({refs_rp[t], r1, r2} if t == 0 else {refs_rp[t]}):
                 return f'schedule {compact(plan)}, thread {t}: ' + (f'{r[1]}: {r[2]}' if r[0] == 'err' else 'different result than the serial call')
     return None
